@@ -4,7 +4,11 @@ import (
 	"encoding/json"
 	"flag"
 	"fmt"
+	"regexp"
+	"strconv"
 	"strings"
+
+	"github.com/gardenbed/emerge/internal/ebnf/parser/spec"
 )
 
 // ---- abstract specifications (spec/Ebnf.tla) ----
@@ -213,10 +217,72 @@ func printSpec(s ESpec) (string, []PTok) {
 
 type EbnfArt struct {
 	SpecDump
-	Fam   string  `json:"fam"`
-	Text  string  `json:"text"`
-	Decls []EDecl `json:"decls"`
-	Toks  []PTok  `json:"toks"`
+	Fam    string     `json:"fam"`
+	Text   string     `json:"text"`
+	Decls  []EDecl    `json:"decls"`
+	Toks   []PTok     `json:"toks"`
+	DfaErr string     `json:"dfaerr"` // error of (*Spec).DFA() for an accepted specification (patterns are validated there)
+	Diags  [][]string `json:"diags"`  // diagnostics of known shapes found in err/dfaerr: [kind, name]
+}
+
+var diagShapes = []struct {
+	kind string
+	re   *regexp.Regexp
+}{
+	{"undef-token", regexp.MustCompile(`no definition for terminal "?([^"\s]+)"?`)},
+	{"multi-def", regexp.MustCompile(`multiple definitions for terminal "?([^"\s:]+)"?`)},
+	{"same-value", regexp.MustCompile(`multiple definitions with the same value: "((?:[^"\\]|\\.)*)"`)},
+	{"bad-predef", regexp.MustCompile(`invalid predefined regex: (\$[A-Za-z0-9_]+)`)},
+	{"no-start", regexp.MustCompile(`(missing production rule with the start symbol|no production rule for start symbol|start symbol start not in the set)`)},
+	{"no-production", regexp.MustCompile(`no production rule for non-terminal symbol ([a-z][0-9a-z_]*)`)},
+	{"dup-handle", regexp.MustCompile(`(.+) appeared in more than one precedence level`)},
+	{"bad-pattern", regexp.MustCompile(`(?m)^\W*"?([A-Z][0-9A-Z_]*)"?: (?:invalid|panic)`)},
+}
+
+func diagsOf(texts ...string) [][]string {
+	out := [][]string{}
+	seen := map[string]bool{}
+	for _, t := range texts {
+		for _, sh := range diagShapes {
+			for _, m := range sh.re.FindAllStringSubmatch(t, -1) {
+				name := m[1]
+				if sh.kind == "no-start" {
+					name = "start"
+				}
+				if sh.kind == "same-value" {
+					if u, err := strconv.Unquote(`"` + name + `"`); err == nil {
+						name = u
+					}
+				}
+				k := sh.kind + "\x00" + name
+				if !seen[k] {
+					seen[k] = true
+					out = append(out, []string{sh.kind, strings.TrimSpace(name)})
+				}
+			}
+		}
+	}
+	return out
+}
+
+// dfaError builds the scanner automaton of an accepted specification and returns its error text.
+func dfaError(text string) string {
+	msg := ""
+	err := safely(func() error {
+		s, err := spec.Parse("t.ebnf", strings.NewReader(text))
+		if err != nil {
+			return nil
+		}
+		_, _, err = s.DFA()
+		return err
+	})
+	if err != nil {
+		msg = err.Error()
+		if msg == "" {
+			msg = "error"
+		}
+	}
+	return msg
 }
 
 func cmdEbnfExport(args []string) error {
@@ -249,6 +315,10 @@ func cmdEbnfExport(args []string) error {
 		text, toks := printSpec(s)
 		id := fmt.Sprintf("%s-%d", s.Fam, n)
 		art := EbnfArt{SpecDump: dumpSpec(id, "t.ebnf", text), Fam: s.Fam, Text: text, Decls: s.Decls, Toks: toks}
+		if art.OK {
+			art.DfaErr = dfaError(text)
+		}
+		art.Diags = diagsOf(art.Err, art.DfaErr)
 		return w.Write(art)
 	})
 	if err != nil {
